@@ -107,6 +107,30 @@ func runC06(c *core.Ctx) {
 		"journalEntryCode.revertOldCodeEntry": "revert",
 		"journalEntryCode.revertNewCodeEntry": "revert",
 	}
+	// ... and derived ones: an unexported function that only writes a trie it is HANDED (not the accounts
+	// trie of its receiver), never journalises and is called inside the package is the same thing as a
+	// reviewed helper of kind "data": each of its call sites becomes a mutation event of the caller, which
+	// then owes the journal entry. Nothing is taken on trust: the obligation moves, it does not vanish.
+	for _, fn := range fns {
+		n := fname(fn)
+		if _, listed := helperKind[n]; listed || len(direct[fn]) == 0 || len(journals[fn]) > 0 || fn.Parent() != nil || ssaExported(fn) || len(callersOf[fn]) == 0 {
+			continue
+		}
+		if _, ex := exemptFn(fn, 0); ex {
+			continue
+		}
+		onlyHanded := true
+		for _, ev := range direct[fn] {
+			cc := core.CallOf(ev)
+			if isRecvField(fn, cc.Value, "mainTrie") {
+				onlyHanded = false
+			}
+		}
+		if onlyHanded {
+			helperKind[n] = "data"
+			c.Note("derived non-journalling helper %s: its call sites are data-trie mutation events of its callers", n)
+		}
+	}
 	events := map[*ssa.Function][]ssa.Instruction{}
 	wrapper := map[*ssa.Function]bool{}
 	for fn, d := range direct {
